@@ -38,7 +38,7 @@ def _run_one(args):
     from .report import Report
     from .model import RepoModel
     mod = importlib.import_module(f"sa.rules.{pid.lower()}")
-    mut = mod.MUTANTS[idx][2]
+    mut = mod.MUTANTS[idx][2] if idx >= 0 else _seed_mutator(name[len("seed-"):])
     tmp = tempfile.mkdtemp(prefix=f"sa-mut-{pid}-")
     try:
         _copy_tree(repo, tmp)
@@ -85,15 +85,66 @@ def _run_one(args):
         shutil.rmtree(tmp, ignore_errors=True)
 
 
+def _seed_mutator(sid: str):
+    """the kept seeded change <sid> as a mutant: its patch applied to the one source file it touches (scratch copy only)"""
+    import subprocess
+
+    def mut(src: str) -> str:
+        d = tempfile.mkdtemp(prefix="sa-seedmut-")
+        try:
+            fp = os.path.join(d, "f.py")
+            with open(fp, "w", encoding="utf-8") as f:
+                f.write(src)
+            r = subprocess.run(["patch", "-s", "--no-backup-if-mismatch", fp, os.path.join(VERIF_DIR, "seeded", sid, "patch.diff")], capture_output=True, text=True)
+            if r.returncode != 0:
+                raise RuntimeError("seed patch does not apply to the current source: " + (r.stdout + r.stderr)[-160:])
+            with open(fp, encoding="utf-8") as f:
+                return f.read()
+        finally:
+            shutil.rmtree(d, ignore_errors=True)
+    return mut
+
+
+def seed_mutants(pid: str):
+    """[(name, relfile, expected key prefix)] for the kept seeded changes of this property that its own check detects (per
+    seeded/MATRIX.json) and that touch exactly one file under src/lian"""
+    out = []
+    try:
+        with open(os.path.join(VERIF_DIR, "seeded", "MATRIX.json")) as f:
+            mx = json.load(f)
+    except Exception:
+        return out
+    for sid, r in sorted(mx.items()):
+        if not sid.startswith(pid) or pid not in r.get("detected_by", {}):
+            continue
+        pth = os.path.join(VERIF_DIR, "seeded", sid, "patch.diff")
+        try:
+            files = [l[6:].strip() for l in open(pth, encoding="utf-8") if l.startswith("+++ b/")]
+        except Exception:
+            continue
+        if len(files) != 1 or not files[0].startswith(SRC_REL + "/"):
+            continue
+        keys = [k for k in r["detected_by"][pid] if not k.startswith("ANALYSIS-ERROR")]
+        if not keys:
+            continue
+        # expected: rule id and file of the first reported instance (stable under small refactorings of the key text)
+        out.append((f"seed-{sid}", files[0][len(SRC_REL) + 1:], "::".join(keys[0].split("::")[1:3])))
+    return out
+
+
 def run_for_property(pid: str, repo: str, evidence_dir: str, quiet: bool = False) -> int:
     mod = importlib.import_module(f"sa.rules.{pid.lower()}")
     muts = getattr(mod, "MUTANTS", [])
     t0 = time.time()
     jobs = [(pid, repo, m[0], m[1], i, m[3]) for i, m in enumerate(muts)]
+    jobs += [(pid, repo, name, rel, -1, expect) for name, rel, expect in seed_mutants(pid)]
     results = []
     with cf.ProcessPoolExecutor(max_workers=min(16, max(1, len(jobs)))) as ex:
         for r in ex.map(_run_one, jobs):
             results.append(r)
+    # a kept seed whose patch no longer applies to the tree under analysis cannot be replayed: reported, not a failure of the checker
+    skipped = [r for r in results if r[0].startswith("seed-") and r[1] == "MUTATION-FAILED"]
+    results = [r for r in results if r not in skipped]
     detected = [r for r in results if r[1] == "DETECTED"]
     bad = [r for r in results if r[1] != "DETECTED"]
     # merge into the evidence file written by the live-tree run
@@ -107,6 +158,8 @@ def run_for_property(pid: str, repo: str, evidence_dir: str, quiet: bool = False
         ev["coverage"]["checker_selftest"] = {
             "mutants": len(results), "detected": len(detected),
             "not_detected": [{"mutant": r[0], "result": r[1], "why": r[2]} for r in bad],
+            "seeded_changes_replayed": len([r for r in results if r[0].startswith("seed-")]),
+            "seeded_changes_not_replayable": [{"mutant": r[0], "why": r[2]} for r in skipped],
             "samples": [{"mutant": r[0], "reported_instance": r[2]} for r in detected[:8]],
             "note": "mutants are AST-located edits of a scratch copy of src/lian; only the checker is run on them",
             "wall_s": round(time.time() - t0, 2),
@@ -118,6 +171,8 @@ def run_for_property(pid: str, repo: str, evidence_dir: str, quiet: bool = False
         print(f"[{pid}] checker self-test: {len(detected)}/{len(results)} mutants detected in {time.time()-t0:.1f}s")
         for r in bad:
             print(f"  SELFTEST-{r[1]} {r[0]}: {r[2]}")
+        for r in skipped:
+            print(f"  SELFTEST-SKIPPED {r[0]}: {r[2]}")
     if bad:
         print(f"ANALYSIS-ERROR property={pid} checker self-test failed for {len(bad)} mutant(s); the checker, not the repository, is at fault")
         return 2
